@@ -781,10 +781,15 @@ func (g *gen) fields(n, depth int, objectOnly bool) []*Field {
 			out = append(out, sibling)
 		}
 	}
-	// protobuf names the synthetic entry message of a map field <Field>Entry: a
-	// sibling inline type that derives the same nested name (only reachable through
-	// shadow(): a top-level type called LampEntry next to a map field lamp) is two
-	// declarations of one symbol, not a valid program. The map field gives way.
+	avoidMapEntryClash(out, taken)
+	return out
+}
+
+// avoidMapEntryClash: protobuf names the synthetic entry message of a map field
+// <Field>Entry. A sibling inline type that derives the same nested name (only
+// reachable through shadow(): a top-level type called LampEntry next to a map field
+// lamp) is two declarations of one symbol, not a valid program. The map field gives way.
+func avoidMapEntryClash(out []*Field, taken map[string]bool) {
 	nestedName := func(f *Field) string {
 		lt := f.Type
 		if lt.Items != nil {
@@ -823,7 +828,6 @@ func (g *gen) fields(n, depth int, objectOnly bool) []*Field {
 			taken[strings.ToLower(snake(m.Name))] = true
 		}
 	}
-	return out
 }
 
 // shadow renames a field with an inline type after a top-level type of the
@@ -910,6 +914,7 @@ func (g *gen) simpleFields(n int) []*Field {
 			out = append(out, sibling)
 		}
 	}
+	avoidMapEntryClash(out, taken)
 	return out
 }
 
